@@ -217,7 +217,12 @@ def reload_cases(tier, seed):
         deb0 = rng.choice([1, 2])
         cfg = wc.setup_world(s, wc.base_cfg(deb=deb0))
         s.start()
-        s.exec(3, wc.X + "/vim")
+        # the editor is a script, or a dynamically linked binary whose loader the daemon learns from the image; in the
+        # second case the process executes that loader at some later point (as the kernel reports it), possibly after
+        # the configuration was rewritten: it is still an editor, under the old and under the new configuration
+        elf_editor = rng.random() < 0.5
+        s.exec(3, wc.X + ("/elf/vim" if elf_editor else "/vim"))
+        loader_pending = elf_editor
         files = [wc.WATCH + "/inc/a.txt", wc.WATCH + "/n"]
         steps = rng.randint(2, 7)
         at = rng.randint(0, steps)
@@ -271,6 +276,12 @@ def reload_cases(tier, seed):
                         cfg = new
                 s.write(3, wc.CFG_PATH)
                 s.dump()
+                if loader_pending and rng.random() < 0.7:
+                    s.exec(3, wc.X + "/ld.so")
+                    loader_pending = False
+                    s.put(wc.WATCH + "/n", "after the loader")
+                    s.write(3, wc.WATCH + "/n")
+                    s.dump()
                 if directed:
                     s.timeout()
                     s.dump()
@@ -310,6 +321,41 @@ def _cfg_fields(line):
         d[k] = v
     rel = lambda h: vlib.unhexs(h)[len(wc.R):]
     return {"queue": rel(d["queue"]), "journal": rel(d["journal"]), "deb": int(d["deb"])}
+
+
+def mon_editor_kept(steps, meta):
+    """process 3 executed an editor at the start; executing the loader learnt from that editor does not end that; so
+    every later write of the plain file /w/n by process 3 that is handled without an error is queued - unless the
+    configuration in force excludes /w/n - however often the configuration was rewritten in between"""
+    excl = {}
+    bound = None
+    inforce = None
+    editor3 = False
+    for st in steps:
+        if st.op == "start":
+            editor3 = False          # a new process knows no editors yet
+        if st.op == "exec" and st.result == "ok" and st.tok[1] == "3" and vlib.unhexs(st.tok[2]).endswith("/vim"):
+            editor3 = True
+        if st.op == "cfg":
+            for t in st.tok[2:]:
+                if t.startswith("excluded="):
+                    excl[st.tok[1]] = [vlib.unhexs(x) for x in t[9:].split(",") if x.startswith("h")]
+        elif st.op == "cfgbind":
+            bound = st.tok[1]
+        elif st.op == "start" and st.result == "ok":
+            inforce = st.tok[1]
+        elif st.op == "write" and st.result == "ok" and len(st.tok) > 2:
+            p = vlib.unhexs(st.tok[2])
+            if p == wc.CFG_PATH:
+                if bound in excl:
+                    inforce = bound
+            elif p == wc.WATCH + "/n" and st.tok[1] == "3" and editor3 and inforce in excl and not any(p == e or p.startswith(e + "/") for e in excl[inforce]):
+                if not any(l.split(" ")[1:2] == ["symlinkat"] for l in st.log):
+                    return "the write '%s' by the editor process 3 was not queued (the plain file is not excluded by the configuration in force)" % st.line
+    return None
+
+
+wk.MONITORS["editor_kept"] = mon_editor_kept
 
 
 def mon_reload(steps, meta):
@@ -394,7 +440,7 @@ def main(rep):
             found = True
         rc = reload_cases(rep.tier, rep.seed)
         if not found:
-            f, v = wk.run_cases(rep, exe_impl, exe_model, rc, ["reload", "journal", "bursts", "queue_form", "fault_reported"])
+            f, v = wk.run_cases(rep, exe_impl, exe_model, rc, ["reload", "editor_kept", "journal", "bursts", "queue_form", "fault_reported"])
             found = found or f
             validated += v
         for p in problems:
